@@ -546,13 +546,10 @@ func (c *Client) recv(keepaliveQuit chan<- struct{}) {
 				Space: stanza.NSStreamManagement,
 				Local: "a",
 			}, H: c.Session.SMState.Inbound}
-			err = c.Send(answer)
-			if err != nil {
-				stopKeepalive()
-				c.ErrorHandler(err)
-				c.disconnected(c.Session.SMState)
-				return
-			}
+			// When the answer cannot be written the connection is going away, but that is not the moment to
+			// stop: stanzas the server sent before are still in the read buffers, they were received and
+			// have to be routed. The read side notices the loss when they are used up and reports it (once).
+			_ = c.Send(answer)
 		case stanza.StreamClosePacket:
 			// TCP messages should arrive in order, so we can expect to get nothing more after this occurs
 			c.transport.ReceivedStreamClose()
